@@ -85,3 +85,29 @@ func mergeMaps(dest, src map[string]any) map[string]any {
 
 	return dest
 }
+
+// expandKeys resolves the keys of (nested) maps, which represent a hierarchy, like "config.subject" to
+// the corresponding structure. Such keys are created for entries of lists while converting environment
+// variables to configuration properties.
+func expandKeys(val any) any {
+	switch typed := val.(type) {
+	case map[string]any:
+		result := make(map[string]any, len(typed))
+
+		for k, v := range typed {
+			result = mergeMaps(result, map[string]any{k: expandKeys(v)})
+		}
+
+		return result
+	case []any:
+		result := make([]any, len(typed))
+
+		for i, v := range typed {
+			result[i] = expandKeys(v)
+		}
+
+		return result
+	default:
+		return val
+	}
+}
